@@ -50,6 +50,7 @@ pub tracked struct QCtx {
     pub ghost debt_idle: bool,      // this thread left the queue Idle and non-empty
     pub ghost debt_pending: bool,   // this thread made the queue Pending and has not yet pushed+kicked
     pub ghost latching: bool,       // jobs are polled with a DrainWaker (wake memory lives outside the state)
+    pub ghost latch_parked: bool,   // this thread parked the queue (WaitingForWake / WaitingForPoll) while latching
     pub ghost nonblocking: bool,    // try_sync: no blocking primitive may be reached
     pub ghost unparked: bool,       // WakeThread: unpark() was called
     pub ghost ran: nat,             // number of times a job / closure was entered by this thread
@@ -65,7 +66,7 @@ pub open spec fn valid(c: QCtx) -> bool { c.v_order && c.v_conserve && c.v_state
 
 /// the context of a thread that is not involved with the queue
 pub open spec fn fresh(c: QCtx) -> bool {
-    !c.holds && !c.parked && c.current is None && !c.debt_idle && !c.debt_pending && !c.latching
+    !c.holds && !c.parked && c.current is None && !c.debt_idle && !c.debt_pending && !c.latching && !c.latch_parked
     && !c.unparked && c.ran == 0 && c.appends == 0 && c.log.len() == 0 && valid(c)
 }
 pub open spec fn log_extends(new: Seq<Sec>, old: Seq<Sec>) -> bool {
@@ -73,12 +74,12 @@ pub open spec fn log_extends(new: Seq<Sec>, old: Seq<Sec>) -> bool {
 }
 /// frame: what every function under contract preserves of the caller's context
 pub open spec fn kept(n: QCtx, o: QCtx) -> bool {
-    n.nonblocking == o.nonblocking && n.latching == o.latching && log_extends(n.log, o.log)
+    n.nonblocking == o.nonblocking && n.latching == o.latching && n.latch_parked == o.latch_parked && log_extends(n.log, o.log)
     && n.appends >= o.appends && n.ran >= o.ran
 }
 pub open spec fn kept_counts(n: QCtx, o: QCtx) -> bool { kept(n, o) && n.appends == o.appends && n.ran == o.ran && n.unparked == o.unparked }
 /// a thread that neither owns the queue nor owes it anything
-pub open spec fn outsider(c: QCtx) -> bool { !c.holds && !c.parked && c.current is None && paid(c) && valid(c) && !c.latching }
+pub open spec fn outsider(c: QCtx) -> bool { !c.holds && !c.parked && c.current is None && paid(c) && valid(c) && !c.latching && !c.latch_parked }
 pub open spec fn paid(c: QCtx) -> bool { !c.debt_idle && !c.debt_pending }
 
 pub open spec fn is_append(a: Seq<BoxedJob>, b: Seq<BoxedJob>) -> bool { b.len() == a.len() + 1 && b.drop_last() =~= a }
@@ -118,8 +119,8 @@ pub open spec fn step_state(c: QCtx, a: JobQueueCore, b: JobQueueCore) -> QCtx {
         else if s is Running && t is WaitingForUnpark { QCtx { parked: true, ..c } }
         else if s is AwokenWhileRunning && (t is WaitingForUnpark || (t is WaitingForWake && !c.latching) || (t is WaitingForPoll && !c.latching)) { QCtx { v_wake: false, ..c } }
         else if c.current is None && t is Idle { QCtx { holds: false, ..c } }
-        else if c.current is None && t is WaitingForWake && (s is Running || c.latching) { QCtx { holds: false, ..c } }
-        else if c.current is None && t is WaitingForPoll && c.latching { QCtx { holds: false, ..c } }
+        else if c.current is None && t is WaitingForWake && (s is Running || c.latching) { QCtx { holds: false, latch_parked: c.latching, ..c } }
+        else if c.current is None && t is WaitingForPoll && c.latching { QCtx { holds: false, latch_parked: true, ..c } }
         else { QCtx { v_state: false, ..c } }
     }
 }
@@ -170,7 +171,9 @@ pub struct JobQueue { pub core: Mutex<JobQueueCore> }
 // ------------------------------------------------------------------ schedule (VecDeque<Arc<JobQueue>>)
 
 pub tracked struct SCtx { pub ghost appended: nat }
-pub tracked struct G { pub tracked q: QCtx, pub tracked s: SCtx }
+/// wake log: which wakers this thread has woken, and which waker it installed in a DrainWaker
+pub tracked struct WCtx { pub ghost woken: Seq<Waker>, pub ghost installed: Option<Waker> }
+pub tracked struct G { pub tracked q: QCtx, pub tracked s: SCtx, pub tracked w: WCtx }
 
 pub type Schedule = VecDeque<Arc<JobQueue>>;
 
@@ -214,7 +217,7 @@ impl Mutex<bool> {
 
 // ------------------------------------------------------------------ jobs and user code (A5)
 
-pub struct Context { pub _p: () }
+pub struct Context { pub waker: Waker }
 
 impl DynJob {
     /// C01 / C15: a job is only ever entered by the thread that holds the queue's run token, owns the
